@@ -39,7 +39,7 @@ def gen_cases(prop, n, sd):
         if exact:
             eq = rng.choice(["1", "999.75", "1000", "12345.5", "0.5", "4096"])
             fee = rng.choice(["0", "1/64", "1/8", "1/4"])
-            px = [rng.choice(["0.25", "3", "7.75", "1000", "12.5", "nan"]) if rng.random() < 0.93 else "nan" for _ in range(nw)]
+            px = [rng.choice(["0.25", "3", "7.75", "1000", "12.5", "0.125", "7.0625", "nan"]) if rng.random() < 0.93 else "nan" for _ in range(nw)]
             if kind == "dw":
                 par = rng.choice(["0", "1/4", "1/2", "1", "1/64"] + (["-1/4", "5/4"] if rng.random() < 0.3 else []))
                 # power-of-two weight sums keep the normalised weights dyadic
@@ -51,7 +51,8 @@ def gen_cases(prop, n, sd):
         else:
             eq = rng.choice(["1000", "20000", "5000", "687.5", "2500", "12000", "100000"])
             fee = rng.choice(["0", "0.001", "0.0025", "0.02", "0.005"])
-            px = [("%d.%02d" % (rng.randint(0, 199), rng.randint(1, 99))) if rng.random() < 0.95 else "nan" for _ in range(nw)]
+            px = [(("%d.%02d" % (rng.randint(0, 199), rng.randint(1, 99))) if rng.random() < 0.7 else
+                   rng.choice(["12.345", "0.875", "3.3325", "45.675", "0.0625", "19.995", "101.005"])) if rng.random() < 0.95 else "nan" for _ in range(nw)]    # also sub-cent (adjusted) prices
             if kind == "dw":
                 par = rng.choice(["0.05", "0.1", "0.3", "0", "0.025", "0.15", "0.0333", "0.004", "0.125"] + (["-0.01", "1.01", "1.000001", "-0.000000001", "1.000000005"] if rng.random() < 0.25 else []))
                 w = [rng.choice([0, 1, 2, 3, 4, 5, 6, 10]) for _ in range(nw)]
@@ -60,7 +61,7 @@ def gen_cases(prop, n, sd):
             else:
                 par = rng.choice(["1", "1.5", "2", "0.3", "3", "1.337", "2.5049", "0.004", "0.75"] + (["0", "-0.5", "-0.000000001"] if rng.random() < 0.2 else []))
                 w = [rng.choice([-6, -4, -3, -1, 0, 1, 2, 3, 5, 7]) for _ in range(nw)]
-            wdiv = rng.choice([1, 10, 100])
+            wdiv = rng.choice([1, 10, 100, 100, 10000, 1000000])       # weights may be basis-point sized: only their proportions matter
             if rng.random() < 0.08:
                 w = [0] * nw
         cases.append(dict(kind=kind, eq=eq, par=par, fee=fee, w=w, px=px, exact=exact, wdiv=wdiv))
